@@ -370,6 +370,110 @@ PROPS["C16"] = {
     ],
 }
 
+# ---- C08 (unit cfgbuild, round 3) ---------------------------------------------------------------------------------
+TWINS["cfgbuild"] = [("get_program_cfg", "c08.cfg"), ("build", "c08.cfg"), ("add_", "c08.cfg"), ("get_entry_nodes_of_subs", "c08.cfg"), ("GraphBuilder", "c08.cfg")]
+PROPS["C08"] = {
+    "units": ["cfgbuild"],
+    "level_text": (
+        "GraphBuilder::{new, add_block, add_program_blocks, add_subs_to_call_targets, add_intraprocedural_edge, add_indirect_jumps, add_jump_edge, "
+        "add_outgoing_edges, add_call_return_node_and_edges, add_return_edges, add_jump_and_call_edges, build}, get_program_cfg, get_program_cfg_with_logs, "
+        "get_entry_nodes_of_subs and Node::{get_block, get_sub} of analysis/graph.rs are extracted verbatim from /repo on each run (with the real Node / Edge "
+        "enums and the IR types) and verified by Verus for every program satisfying the stated well-formedness preconditions. The builder is viewed through a "
+        "ghost state (node weights and labelled edges in index order, the four maps, the worklist); every function's contract states the WHOLE change: "
+        "final state == step(old state, args) where step lists exactly the added nodes and edges (frame included). Per step this is the property's clause list: "
+        "add_block: one start node, one end node, one Block edge per (block, function) pair; Branch / CBranch: one Jump edge (second jump of a block carries the "
+        "untaken conditional); BranchInd: one Jump edge per target hint; direct call to an extern symbol or indirect call: one ExternCallStub edge iff there is a "
+        "return target; direct call to an internal function: CallSource node, CallCombine and Call edges to the callee's entry, and -- per returning block of the "
+        "callee and call site with a return target -- a CallReturn node with CrCallStub / CrReturnStub / ReturnCombine edges; CallOther / Return / unknown "
+        "targets: nothing. build is proved to be the chain of these steps, and a verified client composes 50 lemmas into the global statement: one node pair and "
+        "one Block edge per registered pair, every (block, function listing it) registered, every BlkEnd node processed by exactly one round, nothing changed "
+        "afterwards, call targets = functions with a first block, return linkage added last. All panic sites (node-kind matches, map indexing, find_block "
+        "unwrap, more than two jumps) are proved unreachable from the invariant and the preconditions."),
+    "level_note": (
+        "Partial correctness: termination of the worklist loop add_jump_and_call_edges is NOT proved (exec_allows_no_decreases_clause). The global statement is "
+        "cfg_global (unique pairs; final edge sequence = Block edges of program positions ++ the per-round contributions, each BlkEnd in exactly one round, ++ "
+        "return linkage), NOT a closed-form multiset comprehension over (pair, jump index, hint index): that flattening lemma is missing; the bounded twin "
+        "c08.cfg compares the labelled node/edge multisets of the real get_program_cfg with a declarative reference (6006 programs). Preconditions read from "
+        "'well-formed normalized program': sub tids and block tids identify a term (W1, W2), at most two jumps per block and every block tid a jump names "
+        "exists (W3), positions unique (W4, global statement only). Trusted: shim/cfgbuild.rs (11 external_body: Index<NodeIndex> for DiGraph with 'node "
+        "exists' as proved precondition, DiGraph::clone, node_indices, HashMap::get_mut on a present key, find(first Call), any(Return), keys().cloned()."
+        "collect(), LogMessage opaque, axiom_cfg_find_block), Program::find_block as @nobody, R9 substitutions (panic! -> requires-false call: an obligation, "
+        "not an assumption; slice patterns -> len tests; m[&k] -> m.get(&k).unwrap(); entry().and_modify().or_insert_with() -> contains_key / get_mut / insert "
+        "with both closures verbatim; named ghost iterators), hypotheses obeys_key_model::<Tid>, ::<(Tid, Tid)>, obeys_cmp::<Tid>, and everything imported "
+        "with callgraph_build (petgraph DiGraph as an edge sequence, u32 index bound). Node / edge ORDER only up to the unspecified BTreeMap order."),
+    "design_ref": "DESIGN.md section 13 (C08)",
+    "default_twins": ["c08.cfg"],
+    "sweep_twins": ["c08.cfg"],
+    "not_covered": [
+        "termination of GraphBuilder::add_jump_and_call_edges (worklist)",
+        "closed-form edge multiset of the final graph (flattening of the per-round contributions); bounded twin c08.cfg",
+        "node / edge order (BTreeMap iteration order unspecified)",
+        "petgraph u32 capacity panics",
+        "body of Program::find_block (iterator chain; @nobody)",
+        "ToJsonCompact, Display, HasCfg",
+    ],
+    "assumptions": [
+        "shim/cfgbuild.rs: 11 external_body items (DiGraph indexing / clone / node_indices, HashMap::get_mut on a present key, find(Call), any(Return), key set, LogMessage, axiom_cfg_find_block)",
+        "@nobody Program::find_block; alias Graph restated",
+        "R9 substitutions of the unit header (panic! -> cfg_panic() requires false; slice patterns; map indexing; entry chain; ghost iterators; node_indices -> Vec)",
+        "HYPOTHESES obeys_key_model::<Tid>(), obeys_key_model::<(Tid, Tid)>(), obeys_cmp::<Tid>()",
+        "PRECONDITIONS W1-W4 (well-formed normalized program): unique sub / block tids, <= 2 jumps per block, named block tids exist, unique positions",
+        "imported with callgraph_build: petgraph DiGraph::{new, add_node, add_edge}, axiom_cg_digraph_bounds, Tid::clone",
+        "64-bit target (usize = u64)",
+    ],
+}
+
+# ---- C17 (units reachcheck*, round 3) -----------------------------------------------------------------------------
+TWINS["reachcheck"] = [("is_sink_call_reachable_from_source_call", "c17.reach")]
+TWINS["reachcheck_243"] = [("blk_calls_tid", "c17.chroot"), ("sub_calls_chdir", "c17.chroot"), ("check_cwe", "c17.chroot")]
+TWINS["reachcheck_367"] = [("check_cwe", "c17.toctou")]
+PROPS["C17"] = {
+    "units": ["reachcheck", "reachcheck_243", "reachcheck_367"],
+    "level_text": (
+        "graph_utils::is_sink_call_reachable_from_source_call, cwe_243::{blk_calls_tid, sub_calls_chdir_and_priviledge_dropping_func, check_cwe}, "
+        "cwe_367::check_cwe and Node::get_block are extracted verbatim from /repo on each run (with the real Node / Edge enums, Jmp, Project, AnalysisResults) and "
+        "verified by Verus for EVERY control flow graph (the graph is an arbitrary input; how it is built from a program is C08). The search is proved exact in "
+        "both directions: the result is Some iff an ExternCallStub edge that is a direct call to the use symbol leaves a node reachable from the start node along "
+        "intraprocedural edges (every kind except Call and CrReturnStub) without traversing an ExternCallStub edge that is a direct call to the check symbol; "
+        "Some(tid) is the tid of such a call; nothing is indexed out of range; both loops terminate (measure: unvisited nodes, then worklist length). "
+        "cwe_367::check_cwe reports exactly one warning per (configured pair with both symbols imported, ExternCallStub edge of a direct call to the check "
+        "symbol) for which a use call is reachable from the edge's target. cwe_243::check_cwe (no precondition on the graph, no panic site left) reports exactly "
+        "one warning per BlkEnd node whose block calls chroot when chdir is not imported, or when no chdir call is reachable from the return site of the chroot "
+        "call (target of the call's own ExternCallStub edge; none when the call does not return) and the function does not call both chdir and an imported "
+        "configured privilege-dropping function."),
+    "level_note": (
+        "'It handles every program without failing' was REFUTED for the chroot check on the pinned tree (two programs panicked) and repaired (fix: b82ac12); it is "
+        "now proved unconditionally for cwe_243::check_cwe. cwe_367::check_cwe keeps one graph precondition (rc367_pre: the target of every reporting edge is a "
+        "BlkStart node -- a fact about the CFG builder, C08; its `_ => panic!` arm is a proved obligation under it). Corner use == check: the use test comes first, "
+        "so a reachable second call to the symbol is a hit, never a barrier (the property text is silent; the spec reads 'reaching the call is not passing it'). Not "
+        "decided: which of several hits' tids is returned; which of several return edges of one call site is used (arbitrary graphs only); warning texts; config "
+        "parsing (a malformed config diverges); which symbol wins when several extern symbols share a name. Trusted: shim/reachcheck.rs (petgraph graph.edges(a) = "
+        "exactly the outgoing edges with index, endpoints, weight; key model for NodeIndex so that vstd's HashSet specs apply), shim/reachcheck_checks.rs "
+        "(Index<NodeIndex> with 'node exists' as proved precondition, node_indices / edge_references as Vecs, Iterator::any through the closure's ensures, "
+        "deterministic config parse, symbol map chain), find_symbol and the two generate_cwe_warning as @nobody (find_symbol's meaning is proved in unit callsites), "
+        "R9 substitutions (`for` with `continue` -> `while let Some(x) = it.next()` over a verified iterator; filter_map/collect -> explicit loop with the closure "
+        "body verbatim; panic! -> requires-false call), everything imported with callgraph_build."),
+    "design_ref": "DESIGN.md section 13 (C17)",
+    "default_twins": ["c17.reach", "c17.chroot", "c17.toctou"],
+    "sweep_twins": ["c17.reach", "c17.chroot", "c17.toctou"],
+    "not_covered": [
+        "CFG construction (C08): that a built graph satisfies rc367_pre and that the return edge exists iff the call has a return target",
+        "which hit's tid is reported; which of several return edges of one call site (arbitrary graphs only)",
+        "warning text and configuration parsing",
+        "several extern symbols with the same name",
+        "petgraph u32 capacity",
+    ],
+    "assumptions": [
+        "shim/reachcheck.rs: verif_rc_edges (graph.edges), axiom_rc_node_index_key_model, Hash for NodeIndex",
+        "shim/reachcheck_checks.rs: DiGraph Index<NodeIndex>, node_indices / edge_references as Vecs, verif_rc_any, verif_rc_parse_config, verif_rc_never (requires false), RcSymbolMap",
+        "@nobody: find_symbol (None iff no symbol has that name; Some(t): t is the tid field of such a symbol), both generate_cwe_warning (uninterpreted functions of their arguments)",
+        "R9 substitutions listed in the unit headers",
+        "HYPOTHESIS rc367_pre (cwe_367 only): the target of every reporting ExternCallStub edge is a BlkStart node",
+        "everything imported with callgraph_build / callgraph / bitvector",
+        "64-bit target (usize = u64)",
+    ],
+}
+
 
 def twin_for(unit, label):
     for frag, twin in TWINS.get(unit, []):
